@@ -42,7 +42,7 @@ MODES = [
     ('rfix', ['-f', '3'], ['-R'], 3, 3),
 ]
 SIZES = {'nop': 1, 'lda': 2, 'ldhl': 3, 'jp': 3, 'call': 3, 'jr': 2, 'ret': 1, 'ldhlm': 3, 'defb': 2, 'defw': 2, 'ldb': 2, 'djnz': 2, 'ldix': 4,
-         'defm': 3, 'defs': 4, 'cpn': 2, 'ldbc': 3}
+         'defm': 3, 'defs': 4, 'cpn': 2, 'ldbc': 3, 'defmc': 7}
 KINDS = sorted(SIZES)
 
 
@@ -104,6 +104,9 @@ def hand_files(draw):
             return 'DEFB %s,"%s"' % (ch([1, 200, '$C0']), ch(['a', ';', '1', 'b']))
         if k == 'defm':
             return 'DEFM "%s"' % ch(['a;b', '123', 'x y', '4;5'])
+        if k == 'defmc':
+            # a number inside a string is text, also after a comma and when it equals the address of a labelled instruction
+            return ch(['DEFM "a,%05d"', 'DEFB "(,%05d"', 'DEFM "%05d,",65']) % anyaddr()
         if k == 'defs':
             return 'DEFS 4%s' % ch(['', ',1', ',"x"'])
         if k == 'defw':
